@@ -344,7 +344,9 @@ def _run(mod, modname, prop, tier, seed, args, tmpdir, t0):
 
     # known findings: witness probes
     known_lines, known_repro, notes = [], [], []
-    for e in findings:
+    for e in (findings if (not args.replay or probe_keys) else []):
+        if args.replay and e["key"] not in probe_keys:
+            continue
         pr = probe_res.get(e["key"])
         if e["status"] == "open":
             if pr is None or pr.get("missing"):
